@@ -192,6 +192,282 @@ theorem C16_float (w x : QRec) (hw : w.mode ≤ 5) (hx : x.mode ≤ 5) (h5 : w.m
        · simp [mkImpl, mkFloatMul]
        · simp [mkImpl, mkFloatMul])
 
+/-! ### floating-point cells: the width rule, read on value sets
+
+`Val` says nothing about a mode-5 record (`True`).  The statements below give the width rule of
+`C16_float` its meaning: with the IEEE interchange formats as value sets (`ValFloat`), the reported
+output type contains every value of every floating-point operand type, hence every product with the
+factors `1`, `-1` and `0` of the other operand — which is what fails as soon as the width is taken
+from the narrower operand. -/
+
+/-- the three widths with a value set -/
+def IsFloatWidth (b : ℤ) : Prop := b = 16 ∨ b = 32 ∨ b = 64
+
+/-- a format with at least the precision and at least the exponent range holds every value -/
+theorem C16_float_fmt_mono (p p' : ℕ) (emax emax' : ℤ) (hp : p ≤ p') (he : emax ≤ emax') (v : ℚ)
+    (h : ValFloatFmt p emax v) : ValFloatFmt p' emax' v := by
+  obtain ⟨m, e, h1, h2, h3, h4, rfl⟩ := h
+  obtain ⟨k, rfl⟩ := Nat.exists_eq_add_of_le hp
+  refine ⟨m * ((2 ^ k : ℕ) : ℤ), e - (k : ℤ), ?_, ?_, ?_, ?_, ?_⟩
+  · have hk : (0 : ℤ) < ((2 ^ k : ℕ) : ℤ) := by positivity
+    have : -(((2 ^ p : ℕ) : ℤ)) * ((2 ^ k : ℕ) : ℤ) < m * ((2 ^ k : ℕ) : ℤ) :=
+      mul_lt_mul_of_pos_right h1 hk
+    push_cast at this ⊢
+    rw [pow_add]; linarith
+  · have hk : (0 : ℤ) < ((2 ^ k : ℕ) : ℤ) := by positivity
+    have : m * ((2 ^ k : ℕ) : ℤ) < ((2 ^ p : ℕ) : ℤ) * ((2 ^ k : ℕ) : ℤ) :=
+      mul_lt_mul_of_pos_right h2 hk
+    push_cast at this ⊢
+    rw [pow_add]; linarith
+  · push_cast; omega
+  · push_cast; omega
+  · have : pow2 e = pow2 (k : ℤ) * pow2 (e - (k : ℤ)) := by
+      rw [← pow2_add]; congr 1; ring
+    rw [this, pow2_natCast]; push_cast; ring
+
+/-- value sets grow with the width: fp16 ⊆ fp32 ⊆ fp64 -/
+theorem C16_float_width_mono (b b' : ℤ) (hb : IsFloatWidth b) (hb' : IsFloatWidth b') (hle : b ≤ b')
+    (v : ℚ) (h : ValFloat b v) : ValFloat b' v := by
+  rcases hb with rfl | rfl | rfl <;> rcases hb' with rfl | rfl | rfl <;>
+    first
+    | omega
+    | exact h
+    | (simp only [ValFloat, floatFmt] at h ⊢
+       exact C16_float_fmt_mono _ _ _ _ (by norm_num) (by norm_num) v h)
+
+/-- value sets are symmetric -/
+theorem C16_float_neg (b : ℤ) (v : ℚ) (h : ValFloat b v) : ValFloat b (-v) := by
+  unfold ValFloat at h ⊢
+  split
+  · rename_i p emax hf
+    rw [hf] at h
+    obtain ⟨m, e, h1, h2, h3, h4, rfl⟩ := h
+    exact ⟨-m, e, by omega, by omega, h3, h4, by push_cast; ring⟩
+  · trivial
+
+/-- zero is a value of every floating-point type -/
+theorem C16_float_zero (b : ℤ) : ValFloat b 0 := by
+  unfold ValFloat
+  split
+  · rename_i p emax hf
+    have hfm : IsFloatWidth b := by
+      unfold floatFmt at hf
+      split_ifs at hf with h1 h2 h3
+      · exact Or.inl h1
+      · exact Or.inr (Or.inl h2)
+      · exact Or.inr (Or.inr h3)
+    have hpos : (0 : ℤ) < ((2 ^ p : ℕ) : ℤ) := by positivity
+    refine ⟨0, (1 - emax) - ((p : ℤ) - 1), by omega, hpos, le_rfl, ?_, by simp⟩
+    rcases hfm with rfl | rfl | rfl <;> simp [floatFmt] at hf <;> obtain ⟨rfl, rfl⟩ := hf <;> norm_num
+  · trivial
+
+/-- **C16_float, value form.**  Whenever an operand is floating point the factory reports a floating
+    multiplier whose output is a floating-point record, its width is the LARGER of the floating-point
+    operand widths (equal to the width of the only floating operand when there is one), and — with
+    IEEE value sets — the output type holds every value `a` of every floating operand type together
+    with `a·1`, `a·(−1)`, `a·0`: the products with the unit factors of the other operand. -/
+theorem C16_float_holds_operands (w x : QRec) (hw : w.mode ≤ 5) (hx : x.mode ≤ 5)
+    (h5 : w.mode = 5 ∨ x.mode = 5)
+    (hwf : w.isFloat = true ↔ w.mode = 5) (hxf : x.isFloat = true ↔ x.mode = 5)
+    (hwb : w.mode = 5 → IsFloatWidth w.bits) (hxb : x.mode = 5 → IsFloatWidth x.bits) :
+    ∃ o, makeMultiplier w x = some (.floatMul, o) ∧ o.isFloat = true ∧ IsFloatWidth o.bits ∧
+      (w.mode = 5 → x.mode = 5 → o.bits = max w.bits x.bits) ∧
+      (w.mode = 5 → x.mode ≠ 5 → o.bits = w.bits) ∧
+      (w.mode ≠ 5 → x.mode = 5 → o.bits = x.bits) ∧
+      (w.mode = 5 → ∀ a, ValFloat w.bits a →
+          ValFloat o.bits (a * 1) ∧ ValFloat o.bits (a * (-1)) ∧ ValFloat o.bits (a * 0)) ∧
+      (x.mode = 5 → ∀ b, ValFloat x.bits b →
+          ValFloat o.bits (1 * b) ∧ ValFloat o.bits ((-1) * b) ∧ ValFloat o.bits (0 * b)) := by
+  obtain ⟨o, hmk, -, hof, hob⟩ := C16_float w x hw hx h5 0 0
+  rw [imax_eq_max] at hob
+  have hpos : ∀ b, IsFloatWidth b → 0 < b := by rintro b (rfl | rfl | rfl) <;> norm_num
+  -- the width in the three situations
+  have hww : w.mode = 5 → x.mode = 5 → o.bits = max w.bits x.bits := by
+    intro h1 h2
+    rw [hob, if_pos (hxf.2 h2), if_pos (hwf.2 h1), max_comm]
+  have hwo : w.mode = 5 → x.mode ≠ 5 → o.bits = w.bits := by
+    intro h1 h2
+    have : x.isFloat = false := by
+      cases hxx : x.isFloat with
+      | false => rfl
+      | true => exact absurd (hxf.1 hxx) h2
+    rw [hob, this, if_pos (hwf.2 h1)]
+    simp only [Bool.false_eq_true, if_false]
+    exact max_eq_right (hpos _ (hwb h1)).le
+  have hxo : w.mode ≠ 5 → x.mode = 5 → o.bits = x.bits := by
+    intro h1 h2
+    have : w.isFloat = false := by
+      cases hww' : w.isFloat with
+      | false => rfl
+      | true => exact absurd (hwf.1 hww') h1
+    rw [hob, this, if_pos (hxf.2 h2)]
+    simp only [Bool.false_eq_true, if_false]
+    exact max_eq_left (hpos _ (hxb h2)).le
+  have hwidth : IsFloatWidth o.bits := by
+    by_cases h1 : w.mode = 5 <;> by_cases h2 : x.mode = 5
+    · rw [hww h1 h2]
+      rcases le_total w.bits x.bits with h | h
+      · rw [max_eq_right h]; exact hxb h2
+      · rw [max_eq_left h]; exact hwb h1
+    · rw [hwo h1 h2]; exact hwb h1
+    · rw [hxo h1 h2]; exact hxb h2
+    · omega
+  have hge_w : w.mode = 5 → w.bits ≤ o.bits := by
+    intro h1
+    by_cases h2 : x.mode = 5
+    · rw [hww h1 h2]; exact le_max_left _ _
+    · rw [hwo h1 h2]
+  have hge_x : x.mode = 5 → x.bits ≤ o.bits := by
+    intro h2
+    by_cases h1 : w.mode = 5
+    · rw [hww h1 h2]; exact le_max_right _ _
+    · rw [hxo h1 h2]
+  refine ⟨o, hmk, hof, hwidth, hww, hwo, hxo, ?_, ?_⟩
+  · intro h1 a ha
+    have := C16_float_width_mono _ _ (hwb h1) hwidth (hge_w h1) a ha
+    refine ⟨by simpa using this, by simpa using C16_float_neg _ _ this, by simpa using C16_float_zero _⟩
+  · intro h2 b hb
+    have := C16_float_width_mono _ _ (hxb h2) hwidth (hge_x h2) b hb
+    refine ⟨by simpa using this, by simpa using C16_float_neg _ _ this, by simpa using C16_float_zero _⟩
+
+/-- Why the width must be the LARGER one (regression witness for "the weight decides the width"):
+    `65536 = 2^16` is an fp32 value, `1` is an fp16 value, their product is no fp16 value (the largest
+    finite fp16 magnitude is 65504), while the factory's answer for fp16 weights × fp32 inputs is a
+    32-bit record that holds it. -/
+theorem C16_float_narrow_width_witness :
+    ValFloat 16 1 ∧ ValFloat 32 65536 ∧ ¬ ValFloat 16 (1 * 65536) ∧
+    (∃ o, makeMultiplier (tFloat 16) (tFloat 32) = some (.floatMul, o) ∧ o.bits = 32 ∧
+      ValFloat o.bits (1 * 65536)) ∧
+    (∃ o, makeMultiplier (tFloat 32) (tFloat 16) = some (.floatMul, o) ∧ o.bits = 32) := by
+  have h1 : ValFloat 16 1 := ⟨1, 0, by norm_num, by norm_num, by norm_num, by norm_num, by simp [pow2]⟩
+  have h2 : ValFloat 32 65536 :=
+    ⟨1, 16, by norm_num, by norm_num, by norm_num, by norm_num, by simp [pow2]⟩
+  refine ⟨h1, h2, ?_, ⟨_, rfl, by decide, by simpa [mkImpl, mkFloatMul, tFloat, imax,
+    OutTemplate.toRec] using h2⟩, ⟨_, rfl, by decide⟩⟩
+  rintro ⟨m, e, hm1, hm2, he1, he2, hv⟩
+  have hm2' : (m : ℚ) < 2048 := by exact_mod_cast hm2
+  have hp5 : pow2 e ≤ pow2 5 := pow2_le_pow2 (by norm_num at he2 ⊢; omega)
+  have hp5' : pow2 5 = 32 := by simp [pow2]
+  have hpe : 0 < pow2 e := pow2_pos e
+  have : (m : ℚ) * pow2 e < 65536 := by
+    by_cases hm0 : (m : ℚ) ≤ 0
+    · have : (m : ℚ) * pow2 e ≤ 0 := mul_nonpos_of_nonpos_of_nonneg hm0 hpe.le
+      linarith
+    · push_neg at hm0
+      calc (m : ℚ) * pow2 e ≤ (m : ℚ) * 32 := by rw [← hp5']; exact mul_le_mul_of_nonneg_left hp5 hm0.le
+        _ < 2048 * 32 := by linarith
+        _ = 65536 := by norm_num
+  norm_num at hv
+  linarith
+
+/-! ## histories on one impl object: re-conversion
+
+`convertOnto` is `convert_qkeras_quantizer` on an object that already went through conversions.
+For every class but `QuantizedRelu` each conversion rewrites all fields that depend on the quantizer, so
+the record after ANY history is the record of a fresh conversion of the last quantizer — in particular a
+po2 object converted from a capped and then from an uncapped quantizer carries no cap. -/
+
+/-- a first conversion on a freshly constructed object is `ofQuantizer` (every class) -/
+theorem C16_convert_fresh (q : QKerasQ) (f : QRec) (hf : freshOf q.cls = some f) :
+    convertOnto f q = ofQuantizer q := by
+  unfold freshOf at hf
+  unfold convertOnto ofQuantizer
+  split at hf
+  all_goals first
+    | (rename_i hq; injection hf with hf; subst hf; (try simp only [hq])
+       all_goals first | rfl | (cases q.use01 <;> rfl) | (cases q.negSlopeNonzero <;> rfl))
+    | (cases hf)
+
+/-- re-conversion: after a conversion from `q`, a conversion from `q2` of the same class gives the
+    record of a fresh conversion of `q2` (every class except `quantized_relu`) -/
+theorem C16_reconvert_step (q q2 : QKerasQ) (hc : q2.cls = q.cls) (hr : q.cls ≠ "quantized_relu")
+    (r : QRec) (h : ofQuantizer q = some r) : convertOnto r q2 = ofQuantizer q2 := by
+  unfold ofQuantizer at h
+  unfold convertOnto ofQuantizer
+  rw [hc]
+  split at h
+  all_goals first
+    | (rename_i hq; injection h with h; subst h; (try simp only [hq])
+       all_goals first | rfl | (cases q2.use01 <;> cases q.use01 <;> rfl) | exact absurd hq hr)
+    | (cases h)
+
+/-- every class the factory knows has a constructor state and a conversion -/
+theorem ofQuantizer_isSome_of_fresh (q : QKerasQ) (h : (freshOf q.cls).isSome) :
+    (ofQuantizer q).isSome := by
+  unfold freshOf at h
+  unfold ofQuantizer
+  split at h <;> simp_all
+
+/-- **any history**: on one impl object of a class other than `QuantizedRelu`, after an arbitrary
+    sequence of conversions the record is the one a FRESH object gets from the last quantizer.  (A
+    `PowerOfTwo` object converted from `quantized_po2(b, max_value=M)` and then from
+    `quantized_po2(b)` carries no cap: `ofQuantizer` of the latter has `maxValPo2 = none`.) -/
+theorem C16_reconvert_history (cls : String) (hr : cls ≠ "quantized_relu")
+    (hcls : (freshOf cls).isSome) (qs : List QKerasQ) (q : QKerasQ)
+    (hall : ∀ x ∈ qs ++ [q], x.cls = cls) :
+    convertHistory cls (qs ++ [q]) = ofQuantizer q := by
+  induction qs using List.reverseRecOn generalizing q with
+  | nil =>
+    have hq : q.cls = cls := hall q (by simp)
+    obtain ⟨f, hf⟩ := Option.isSome_iff_exists.mp hcls
+    simp only [convertHistory, List.nil_append, List.foldl_cons, List.foldl_nil, hf, hq, if_true]
+    exact C16_convert_fresh q f (hq ▸ hf)
+  | append_singleton qs p ih =>
+    have hq : q.cls = cls := hall q (by simp)
+    have hp : p.cls = cls := hall p (by simp)
+    have ihp := ih p (fun x hx => hall x (by
+      simp only [List.mem_append, List.mem_singleton] at hx ⊢
+      rcases hx with hx | hx
+      · exact Or.inl (Or.inl hx)
+      · exact Or.inl (Or.inr hx)))
+    have hsome : (ofQuantizer p).isSome := ofQuantizer_isSome_of_fresh p (hp ▸ hcls)
+    obtain ⟨r, hrp⟩ := Option.isSome_iff_exists.mp hsome
+    unfold convertHistory at ihp ⊢
+    rw [List.foldl_append, ihp, hrp]
+    simp only [List.foldl_cons, List.foldl_nil, hq, if_true]
+    exact C16_reconvert_step p q (hq.trans hp.symm) (hp ▸ hr) r hrp
+
+/-- `QuantizedRelu`: the exact relation.  Re-conversion equals a fresh conversion except for the sign
+    flag, which is only ever SET: it stays `true` once a quantizer with a negative slope was seen. -/
+theorem C16_reconvert_relu_partial (q q2 : QKerasQ) (hq : q.cls = "quantized_relu")
+    (hq2 : q2.cls = "quantized_relu") (r : QRec) (h : ofQuantizer q = some r) :
+    ∃ r2, ofQuantizer q2 = some r2 ∧
+      convertOnto r q2 = some { r2 with signed := q2.negSlopeNonzero || q.negSlopeNonzero } ∧
+      ((q.negSlopeNonzero = false ∨ q2.negSlopeNonzero = true) → convertOnto r q2 = some r2) := by
+  unfold ofQuantizer at h
+  unfold convertOnto ofQuantizer
+  simp only [hq, hq2] at h ⊢
+  injection h with h
+  subst h
+  refine ⟨_, rfl, ?_, ?_⟩
+  · cases q2.negSlopeNonzero <;> cases q.negSlopeNonzero <;> rfl
+  · rintro (h | h) <;> simp [h] <;> (cases q2.negSlopeNonzero <;> rfl)
+
+/-- **Counterexample (history).**  One `QuantizedRelu` object converted from
+    `quantized_relu(4, 1, negative_slope=0.25)` and then from `quantized_relu(4, 1)`: the record still
+    says "signed" (4 bits, 1 integer bit, lsb 2^-2, codes −8…7), a fresh conversion says unsigned (lsb
+    2^-3, codes 0…15).  The value 1/8, which `quantized_relu(4,1)` emits, is a value of the fresh type
+    and NOT of the re-converted one — every multiplier built from the reused object is sized for the
+    wrong lattice. -/
+theorem C16_reconvert_relu_counterexample :
+    let a : QKerasQ := { cls := "quantized_relu", bits := 4, integer := 1, negSlopeNonzero := true }
+    let b : QKerasQ := { cls := "quantized_relu", bits := 4, integer := 1, negSlopeNonzero := false }
+    let fresh : QRec := { mode := 0, name := .quantized_relu, bits := 4, intBits := 1, signed := false,
+                          isFloat := false, isPo2 := false, maxValPo2 := none, use01 := false }
+    let stale : QRec := { fresh with signed := true }
+    convertHistory "quantized_relu" [a, b] = some stale ∧ ofQuantizer b = some fresh ∧
+      stale ≠ fresh ∧ Val fresh (1 / 8) ∧ ¬ Val stale (1 / 8) := by
+  refine ⟨by decide, by decide, by decide, ?_, ?_⟩
+  · exact ⟨1, by decide, by decide, by simp [fixedLsb, b2i, pow2]⟩
+  · rintro ⟨k, _, _, hk⟩
+    have hl : fixedLsb 4 1 true = -2 := by decide
+    simp only [hl] at hk
+    have h4 : pow2 (-2) = 1 / 4 := by rw [pow2_eq_zpow]; norm_num
+    rw [h4] at hk
+    have h2 : ((2 * k : ℤ) : ℚ) = 1 := by push_cast; linarith
+    have h3 : (2 * k : ℤ) = 1 := by exact_mod_cast h2
+    omega
+
 /-! ## fixed × (ternary | ±1 binary) : Mux -/
 
 private theorem mux_unit_core (q : QRec) (hq : WFfixed q) (a u : ℚ) (ha : Val q a)
@@ -501,6 +777,15 @@ example : WFfixed { tQuantizedBits with bits := 8, intBits := 0, signed := true 
 example : WFpo2 { tPowerOfTwo with bits := 4, intBits := 4, signed := true,
                                    maxValPo2 := some (pow2 2) } :=
   ⟨rfl, by decide, rfl, rfl, rfl, rfl, Or.inr ⟨2, rfl⟩⟩
+/-- the hypotheses of `C16_float_holds_operands` are met by the records qtools builds for "fp16" / "fp32" -/
+example : (tFloat 16).mode ≤ 5 ∧ ((tFloat 16).isFloat = true ↔ (tFloat 16).mode = 5) ∧
+    ((tFloat 16).mode = 5 → IsFloatWidth (tFloat 16).bits) ∧ IsFloatWidth (tFloat 32).bits ∧
+    ((tQuantizedBits).isFloat = true ↔ (tQuantizedBits).mode = 5) := by
+  refine ⟨by decide, by decide, fun _ => Or.inl rfl, Or.inr (Or.inl rfl), by decide⟩
+example : ValFloat 32 (1 + 1 / 8388608) ∧ ValFloat 16 (65504) :=
+  ⟨⟨8388609, -23, by norm_num, by norm_num, by norm_num, by norm_num,
+    by rw [pow2_eq_zpow]; norm_num⟩,
+   ⟨2047, 5, by norm_num, by norm_num, by norm_num, by norm_num, by rw [pow2_eq_zpow]; norm_num⟩⟩
 example : WFternary tTernary := ⟨rfl, rfl, rfl, rfl⟩
 example : WFbinPM (tBinary false) := ⟨rfl, rfl, rfl, rfl, rfl⟩
 example : WFbin01 (tBinary true) := ⟨rfl, rfl, rfl, rfl, rfl⟩
